@@ -5,6 +5,6 @@ bad=0
 for f in selftest/benign/*.patch; do
   n=$(basename $f .patch); p=$(cat selftest/benign/$n.prop)
   out=$(selftest/seedcheck.sh /verif/$f $p 2>&1)
-  if echo "$out" | grep -q "rc=0" && ! echo "$out" | grep -q "^VIOLATION"; then echo "benign $n: quiet"; else echo "benign $n: ALARM"; echo "$out" | tail -3; bad=1; fi
+  if echo "$out" | grep -q "rc=0" && ! echo "$out" | grep -q "^VIOLATION"; then if echo "$out" | grep -q "^UNDECIDED"; then echo "benign $n: quiet (but UNDECIDED: coverage lost)"; else echo "benign $n: quiet"; fi; else echo "benign $n: ALARM"; echo "$out" | tail -3; bad=1; fi
 done
 exit $bad
